@@ -1,5 +1,93 @@
-(* Wire entry points of the C05 model (stub until the model is built). *)
-From Coq Require Import ZArith List.
-From SG Require Import Base.Sx.
+(* Wire entry points of the C05 model (accumulator over Qc, combined quadrature rule). *)
+From Coq Require Import ZArith List Bool QArith Qcanon.
+From SG Require Import Base.Sx Base.QcUtil Model.Accum.
+Import ListNotations.
 Open Scope Z_scope.
-Definition entry_C05 (sub : Z) (a : sx) : sx := sx_err 0.
+
+Definition qst := astate Qc.
+Definition q_apply := apply_event Qc 0%Qc Qcplus Qcopp.
+
+Definition of_areas (l : list (Z * Qc)) : sx := Lv (map (fun p => Lv [Zv (fst p); of_Qc (snd p)]) l).
+Definition of_state (s : qst) : sx := Lv [of_Qc (st_total s); of_Qc (st_cont s); of_areas (st_areas s); of_LZ (st_new s)].
+
+(* raw event log: (0) init, (1 id) preprocess, (2 id x to_total to_cont) evaluate_area, (3 (ids)) removed,
+   (4) reset (dimension-wise), (5 x) evaluate (dimension-wise), (6) snapshot *)
+Fixpoint replay (es : list sx) (s : qst) : option (list sx) :=
+  match es with
+  | [] => Some []
+  | e :: r =>
+      match e with
+      | Lv [Zv 6] => match replay r s with Some o => Some (of_state s :: o) | None => None end
+      | Lv [Zv 0] => replay r (q_apply s AInit)
+      | Lv [Zv 1; Zv id] => replay r (q_apply s (APre id))
+      | Lv [Zv 2; Zv id; x; bt; bc] =>
+          match get_Qc x, get_bool bt, get_bool bc with
+          | Some x', Some b1, Some b2 => replay r (q_apply s (AEval id x' b1 b2))
+          | _, _, _ => None
+          end
+      | Lv [Zv 3; ids] => match get_LZ ids with Some l => replay r (q_apply s (ARemove l)) | None => None end
+      | Lv [Zv 4] => replay r (q_apply s AResetDW)
+      | Lv [Zv 5; x] => match get_Qc x with Some x' => replay r (q_apply s (AEvalDW x')) | None => None end
+      | _ => None
+      end
+  end.
+
+(* driver steps: (0 ((id (x ...)) ...)) evaluate the new areas with these parts; (1 (removed) (added)) refine;
+   (2 (x ...)) dimension-wise evaluation *)
+Fixpoint lookup_parts (tbl : list (Z * list Qc)) (id : Z) : list Qc :=
+  match tbl with [] => [] | (i, xs) :: r => if i =? id then xs else lookup_parts r id end.
+
+Definition get_parts (s : sx) : option (list (Z * list Qc)) :=
+  match s with
+  | Lv l => opt_all (map (fun e => match e with
+                                   | Lv [Zv id; xs] => match get_LQc xs with Some x => Some (id, x) | None => None end
+                                   | _ => None end) l)
+  | _ => None
+  end.
+
+Definition get_step (s : sx) : option (dstep Qc) :=
+  match s with
+  | Lv [Zv 0; tbl] => match get_parts tbl with Some t => Some (DEvaluate (lookup_parts t)) | None => None end
+  | Lv [Zv 1; rem; add] => match get_LZ rem, get_LZ add with Some r, Some a => Some (DRefine r a) | _, _ => None end
+  | Lv [Zv 2; xs] => match get_LQc xs with Some x => Some (DEvaluateDW x) | None => None end
+  | _ => None
+  end.
+
+Fixpoint run_steps_trace (clear : bool) (steps : list (dstep Qc)) (s : qst) : list sx :=
+  match steps with
+  | [] => []
+  | st :: r => let s' := apply_step Qc 0%Qc Qcplus Qcopp clear s st in of_state s' :: run_steps_trace clear r s'
+  end.
+
+(* combined rule; points are represented by the function value at the point (f = identity) *)
+Definition get_rule (s : sx) : option (Qc * rule Qc) :=
+  match s with
+  | Lv [c; Lv pts] =>
+      match get_Qc c, opt_all (map (fun e => match e with
+                                             | Lv [fv; w] => match get_Qc fv, get_Qc w with Some a, Some b => Some (a, b) | _, _ => None end
+                                             | _ => None end) pts) with
+      | Some c', Some r => Some (c', r)
+      | _, _ => None
+      end
+  | _ => None
+  end.
+
+(* sub 0: (event ...)                       -> snapshots
+   sub 1: (clear (initial ids) (step ...))  -> state after every step
+   sub 2: ((c ((fval w) ...)) ...)          -> (combined weights, rule applied, coefficient-weighted component sum) *)
+Definition entry_C05 (sub : Z) (a : sx) : sx :=
+  match sub, a with
+  | 0, Lv es => match replay es (mkA [] [] 0%Qc 0%Qc) with Some o => Lv o | None => sx_err 1 end
+  | 1, Lv [clear; ids; Lv steps] =>
+      match get_bool clear, get_LZ ids, opt_all (map get_step steps) with
+      | Some c, Some i, Some st => Lv (run_steps_trace c st (a_init Qc 0%Qc i))
+      | _, _, _ => sx_err 2
+      end
+  | 2, Lv rules =>
+      match opt_all (map get_rule rules) with
+      | Some sch => Lv [of_LQc (map snd (combined_rule sch)); of_Qc (apply_rule (fun x => x) (combined_rule sch));
+                        of_Qc (combine_components (fun x => x) sch)]
+      | None => sx_err 3
+      end
+  | _, _ => sx_err 0
+  end.
